@@ -12,6 +12,7 @@
   true while every created output is useful), `UtxoReg.UsefulOutputs`.
 -/
 import Core.Lemmas.Registry
+import Core.Lemmas.AddBlock
 open Std
 
 namespace Ru
@@ -382,11 +383,7 @@ theorem C10_produce_lists (env : Env) (cfg : Cfg) (n n' : Node) (ts : Int) (perm
   subst h
   generalize (Node.produceLoop env cfg n.led.utxos ts n.led.lastTs (n.led.lastTs + cfg.interval) perm copy
             (if (n.led.lastTs == 0) = true then cfg.genesis else 0) []) = loop at hadd
-  unfold Ledger.addBlock at hadd
-  split at hadd
-  · cases hadd
-  rename_i c hc
-  injection hadd with hadd
+  obtain ⟨_, c, hc, hadd⟩ := Ledger.addBlock_inv hadd
   subst hadd
   refine ⟨c, _, hc, rfl, ?_⟩
   intro t ht o ho hy
